@@ -62,6 +62,8 @@ func init() {
 			ruleMultiIPAllOrNothing(c, "C09.R8")
 			c.Rule("C09.R9", "a failed reload is retried: the configuration is remembered only after ConfigurePool succeeded", 2)
 			ruleReloadAllOrNothing(c, "C09.R9")
+			c.Rule("C09.R10", "table entries move only through the paired helpers (a reserved ip is not left in the free table)", 6)
+			ruleTablesOnlyThroughHelpers(c, "C09.R10")
 			c.Rule("C09.R5", "a store Create conflict (IP reserved but not yet seen) is returned, never absorbed", 5)
 			ruleStoreErrorsPropagate(c, "C09.R5")
 			c.Rule("C09.R6", "mutators keep lookup, store write and memory update in one critical section (a concurrent reload cannot interleave)", 12)
